@@ -104,6 +104,20 @@ CLAIMED['C12'] = ('TLA+ spec MMPresent.tla decides the memo invariant over prese
                   'value-class ids of impact-based quantities after undoing the scale) and must equal the first presentation\'s answer clause by clause.',
                   'Generic position and tie-free instances only (a tie-break is not a presentation dependence). ' + TRUST, 'DESIGN.md section 4 C12')
 
+CLAIMED['C06'] = ('TLA+ spec TBRModel.tla (exact rational OLS / Kerman eq. 5 posterior; aggregate-fit-select-per-day pipeline refining the closed form; '
+                  'design-side tbrfit identity) model-checked; hash-sampled enumerated cases replayed into TBR / TBRMMDiagnostics.tbrfit under six layouts',
+                  'All integer data sets of the enumerated shapes (n_pre 3..5, values 0..3, with/without cooldown) satisfy the refinement invariants; '
+                  'sampled cases are rendered as frames (one geo per group, split totals, shuffled rows, unassigned geos / periods, both cooldown settings) '
+                  'and df, loc, scale^2 per analysed day, summary identities for all level/tails/threshold/rescale combinations and the design-side fit '
+                  'are compared with the rationals TLC printed.',
+                  'scipy Student-t cdf/ppf trusted; known finding C06:one-tailed-level-le-half (tails=1, level<=0.5). ' + TRUST, 'DESIGN.md section 4 C06')
+CLAIMED['C18'] = ('TLA+ spec TBRModel.tla (effect-series identities; exact monotonicity predicate of the posterior scale, TLC produces the non-monotone witness); '
+                  'sampled cases replayed into TBRiROAS.estimate_pointwise_and_cumulative_effect',
+                  'Where the exact scale sequence is non-decreasing the report must succeed and satisfy every identity (ordering on every date, counterfactual + '
+                  'pointwise = observed, pre-period pointwise = residuals, last cumulative = posterior quantiles) for both metrics, both cost scenarios, levels '
+                  'and tails; where it is not, the ValueError is the recorded finding and anything else is a violation.',
+                  'scipy quantiles trusted; known findings C18:scale-not-monotone, C18:level-le-half. ' + TRUST, 'DESIGN.md section 4 C18')
+
 PENDING_REASON = 'check not built yet in this round (planned, see DESIGN.md section 10); not claimed until it runs'
 
 
@@ -153,7 +167,7 @@ def build():
 
 
 NOT_APPLICABLE = {}
-HOOK_COMMITS = []
+HOOK_COMMITS = ['d74490a']
 
 if __name__ == '__main__':
   m = build()
